@@ -892,6 +892,26 @@ fn pool_checks(threads: usize, ids: &[u16], other: &[u16], hb: u8) -> Result<u64
         let a = gset(ids, hb);
         let b = gset(other, hb);
         let su = |it: Vec<u16>| sorted_u16(it);
+        // both operand orders and a strictly smaller, overlapping right operand (the implementations pick the
+        // set to walk by relative size)
+        {
+            let small = gset(&other[..other.len().min(3)], hb);
+            let mut big_ids: Vec<u16> = ids.to_vec();
+            big_ids.extend(other.iter().take(1).copied());
+            let big = gset(&big_ids, hb);
+            for (x, y, what) in [(&b, &a, "reversed operands"), (&big, &small, "smaller right operand"), (&small, &big, "smaller left operand")] {
+                if su(x.par_union(y).map(|e| e.id).collect()) != su(x.union(y).map(|e| e.id).collect())
+                    || su(x.par_intersection(y).map(|e| e.id).collect()) != su(x.intersection(y).map(|e| e.id).collect())
+                    || su(x.par_difference(y).map(|e| e.id).collect()) != su(x.difference(y).map(|e| e.id).collect())
+                    || su(x.par_symmetric_difference(y).map(|e| e.id).collect()) != su(x.symmetric_difference(y).map(|e| e.id).collect())
+                    || x.par_is_subset(y) != x.is_subset(y)
+                    || x.par_is_superset(y) != x.is_superset(y)
+                    || x.par_is_disjoint(y) != x.is_disjoint(y)
+                {
+                    return Err(format!("{} ({what}: {} vs {} elements)", ctx("parallel set operation differs from its sequential counterpart"), x.len(), y.len()));
+                }
+            }
+        }
         if su(a.par_union(&b).map(|x| x.id).collect()) != su(a.union(&b).map(|x| x.id).collect())
             || su(a.par_intersection(&b).map(|x| x.id).collect()) != su(a.intersection(&b).map(|x| x.id).collect())
             || su(a.par_difference(&b).map(|x| x.id).collect()) != su(a.difference(&b).map(|x| x.id).collect())
